@@ -51,7 +51,10 @@ func (rg *rootGeneratorSimple) generate() ([]*Node, error) {
 			return nil, errNilStack
 		}
 
-		stack.dfs(currentNode)
+		if !stack.dfs(currentNode) {
+			// nested more than one level deeper than the previous row
+			return nil, &inputFormatError{row: rg.scanner.Text()}
+		}
 	}
 
 	return roots, rg.scanner.Err()
@@ -94,7 +97,11 @@ func (rg *rootGeneratorSimple) generateIter() func(yield func(*Node, error) bool
 				return
 			}
 
-			stack.dfs(currentNode)
+			if !stack.dfs(currentNode) {
+				// nested more than one level deeper than the previous row
+				yield(nil, &inputFormatError{row: rg.scanner.Text()})
+				return
+			}
 		}
 
 		if err := rg.scanner.Err(); err != nil {
@@ -180,7 +187,11 @@ func (rg *rootGeneratorPipeline) worker(ctx context.Context, wg *sync.WaitGroup,
 					return
 				}
 
-				nodes.dfs(currentNode)
+				if !nodes.dfs(currentNode) {
+					// nested more than one level deeper than the previous row
+					errc <- &inputFormatError{row: sc.Text()}
+					return
+				}
 			}
 			if err := sc.Err(); err != nil {
 				errc <- err
